@@ -75,6 +75,9 @@ def cases(tier):
             for members in ([{'m': 1, 'cap': 1, 'tamper_statement': ts}], [{'m': 1, 'cap': 2}, {'m': 2, 'cap': 2, 'tamper_statement': ts}], [{'m': 2, 'cap': 2, 'tamper_statement': ts}, {'m': 1, 'cap': 2}]):
                 out.append({'cfg': {'scenario': 'batch', 'n': 4, 'x': x, 'members': members, 'actions': ACTIONS}, 'kind': 'gens-shape',
                             'name': 'generator vector / degree tag mismatch: %s x%d batch of %d' % (ts, x, len(members))})
+    # the serde visitor handed OTHER data shapes than a byte string (sequence with a hostile declared length, exact sequence, string, integer, owned bytes, unit)
+    for (tag, e) in ((1, 8), (2, 9), (6, 13), (1, 0), (9, 3)):
+        out.append({'cfg': {'scenario': 'codec', 'tag': tag, 'elems': e, 'trailing': 0, 'noncanonical': [], 'serde_shapes': True}, 'kind': 'codec'})
     # statements whose DATA is special though every shape is ordinary: the identity commitment (value 0, all-zero mask) at each position of an
     # aggregate and of a batch, equal commitments, zero / equal blinding factors, the same member twice, one parameters object for all members
     for (n, x) in ((4, 1), (8, 2)):
@@ -100,6 +103,8 @@ def analyse(ctx, case, run, S):
     if case['kind'] == 'codec':
         name = 'tag=%s elems=%d trailing=%d' % (cfg.get('tag'), cfg['elems'], cfg['trailing'])
         ctx.expect(o['decode'] != 'panic' and o.get('serde_decode') != 'panic' and o.get('ext_from_bytes') != 'panic', 'C16:decode-panic', '%s: decoding PANICKED' % name, cfg, 'any_panic')
+        for shp, res in (o.get('serde_shapes') or {}).items():
+            ctx.expect(res != 'panic', 'C16:decode-panic', '%s: the serde visitor PANICKED on input presented as %s' % (name, shp), cfg, 'any_panic')
         return
     if case['kind'] == 'odd':
         ctx.expect(o.get('params') != 'panic' and o.get('statement') != 'panic', 'C16:constructor-panic', '%s: constructor PANICKED' % case['name'], cfg, 'any_panic')
